@@ -5,6 +5,7 @@ import (
 	"math"
 	"strconv"
 	"strings"
+	"unicode/utf8"
 
 	"verifharness/model"
 
@@ -270,8 +271,15 @@ func genComment(t *rapid.T) string {
 	if rapid.IntRange(0, 3).Draw(t, "hostileEnd") == 3 {
 		s += rapid.SampledFrom([]string{"à", "\u0085", " ", "Ġ", "ŕ", "…", " ", "\t", " \t ", "х"}).Draw(t, "cend")
 	}
-	// a comment ends at the line break: no line breaks inside
-	s = strings.NewReplacer("\n", " ", "\r", " ").Replace(s)
+	// a comment ends at the line feed: no LF inside. A bare carriage return is ordinary comment content.
+	s = strings.ReplaceAll(s, "\n", " ")
+	if rapid.IntRange(0, 5).Draw(t, "crInside") == 5 {
+		i := rapid.IntRange(0, len(s)).Draw(t, "crAt")
+		for i > 0 && i < len(s) && !utf8.RuneStart(s[i]) {
+			i--
+		}
+		s = s[:i] + "\r" + s[i:] + rapid.SampledFrom([]string{"", "x", "<B 1>", " new text", "注"}).Draw(t, "afterCR")
+	}
 	return s
 }
 
